@@ -21,13 +21,27 @@ def heldQ (q : QSess) : Held := heldSlots q.prio q.slots
 def held (qs : List QSess) : Held := qs.flatMap heldQ
 def heldOf (s : State) : Held := held s.sessions
 
+/-- what is known when `SenderSession::run` of the FDT session returns `None` -/
+def FdtQuiet (s : State) (now : Nat) : Prop :=
+  (s.fdtSess = none ∧ (fdtBusy s = true ∨ (fdtTryStart s now).2 = none)) ∨
+  (∃ c, s.fdtSess = some c ∧
+    (getF s.fdts c.key = none ∨ ∃ f, getF s.fdts c.key = some f ∧ gateBlocked f now = true))
+
 structure Closed (B Inv : State → Held → Prop) : Prop where
   perm : ∀ s L L', L.Perm L' → Inv s L → Inv s L'
-  sessions : ∀ s L qs, Inv s L → Inv { s with sessions := qs } L
+  leaveFiles : ∀ s L qs, Inv s L → Inv { s with sessions := qs, quiet := false } L
+  enterFiles : ∀ s L now, B s L → Inv s L → FdtQuiet s now → Inv { s with quiet := true } L
   emitRead : ∀ s L now, B s L → Inv s L → Inv (emit s (.opRead now)) L
   emitIdle : ∀ s L now, B s L → Inv s L → Inv (emit s (.idle now)) L
-  getNextFile : ∀ s L prio now ticks s' t, B s L → Inv s L →
-    getNextFile s prio now ticks = (s', some t) → Inv s' ((prio, startCur s' t) :: L)
+  publish : ∀ s L now, B s L → Inv s L → Inv (publish s now) L
+  fdtPop : ∀ s L k rest, B s L → Inv s L → s.fdtSess = none → s.fdtQueue = k :: rest →
+    Inv { s with curFdt := some k, fdtQueue := rest } L
+  fdtStart : ∀ s L k f now, B s L → Inv s L → s.fdtSess = none → s.curFdt = some k →
+    getF s.fdts k = some f → shouldTransferNow f 0 s.cfg.mode now = true →
+    Inv { fdtStartStep s k now with fdtSess := some (startFdtCur k) } L
+  fileStart : ∀ s L prio now tk t, B s L → Inv s L → findNext s prio now s.queue = some t →
+    Inv (autoPublish (fileStartStep s t now tk) now)
+      ((prio, startCur (autoPublish (fileStartStep s t now tk) now) t) :: L)
   pkt : ∀ s L prio c now f idx b e, B s ((prio, c) :: L) → Inv s ((prio, c) :: L) →
     getF s.objs c.key = some f → s.fdtQueue.isEmpty = true → gateBlocked f now = false →
     encRead f.nSym c.enc (canStop f && !s.files.contains c.key) = (some (idx, b), e) →
@@ -36,7 +50,6 @@ structure Closed (B Inv : State → Held → Prop) : Prop where
     getF s.objs c.key = some f → s.fdtQueue.isEmpty = true → gateBlocked f now = false →
     encRead f.nSym c.enc (canStop f && !s.files.contains c.key) = (none, e) →
     Inv (transferDoneFile s c.key now) L
-  fdtGetNext : ∀ s L now, B s L → Inv s L → s.fdtSess = none → Inv (fdtGetNext s now) L
   fdtPkt : ∀ s L c f now idx b e, B s L → Inv s L → s.fdtSess = some c →
     getF s.fdts c.key = some f → gateBlocked f now = false →
     encRead f.nSym c.enc false = (some (idx, b), e) →
@@ -50,7 +63,7 @@ structure ClosedOps (B Inv : State → Held → Prop) : Prop where
   add : ∀ s L a, B s L → Inv s L → Inv (addObject s a).1 L
   remove : ∀ s L t, B s L → Inv s L → Inv (removeObject s t).1 L
   trigger : ∀ s L t ts, B s L → Inv s L → Inv (triggerTransferAt s t ts).1 L
-  publish : ∀ s L now, B s L → Inv s L → Inv (publishOp s now) L
+  emitPublish : ∀ s L now, B s L → Inv s L → Inv (emit s (.opPublish now)) L
   complete : ∀ s L, B s L → Inv s L → Inv { s with complete := true } L
 
 def Top : State → Held → Prop := fun _ _ => True
@@ -62,16 +75,20 @@ def And2 (B A : State → Held → Prop) : State → Held → Prop := fun s L =>
 
 theorem Closed.and {B A : State → Held → Prop} (hb : Closed0 B) (ha : Closed B A) : Closed0 (And2 B A) where
   perm := fun s L L' p h => ⟨hb.perm s L L' p h.1, ha.perm s L L' p h.2⟩
-  sessions := fun s L qs h => ⟨hb.sessions s L qs h.1, ha.sessions s L qs h.2⟩
+  leaveFiles := fun s L qs h => ⟨hb.leaveFiles s L qs h.1, ha.leaveFiles s L qs h.2⟩
+  enterFiles := fun s L now _ h q => ⟨hb.enterFiles s L now trivial h.1 q, ha.enterFiles s L now h.1 h.2 q⟩
   emitRead := fun s L now _ h => ⟨hb.emitRead s L now trivial h.1, ha.emitRead s L now h.1 h.2⟩
   emitIdle := fun s L now _ h => ⟨hb.emitIdle s L now trivial h.1, ha.emitIdle s L now h.1 h.2⟩
-  getNextFile := fun s L prio now ticks s' t _ h e =>
-    ⟨hb.getNextFile s L prio now ticks s' t trivial h.1 e, ha.getNextFile s L prio now ticks s' t h.1 h.2 e⟩
+  publish := fun s L now _ h => ⟨hb.publish s L now trivial h.1, ha.publish s L now h.1 h.2⟩
+  fdtPop := fun s L k rest _ h h1 h2 => ⟨hb.fdtPop s L k rest trivial h.1 h1 h2, ha.fdtPop s L k rest h.1 h.2 h1 h2⟩
+  fdtStart := fun s L k f now _ h h1 h2 h3 h4 =>
+    ⟨hb.fdtStart s L k f now trivial h.1 h1 h2 h3 h4, ha.fdtStart s L k f now h.1 h.2 h1 h2 h3 h4⟩
+  fileStart := fun s L prio now tk t _ h e =>
+    ⟨hb.fileStart s L prio now tk t trivial h.1 e, ha.fileStart s L prio now tk t h.1 h.2 e⟩
   pkt := fun s L prio c now f idx b e _ h h1 h2 h3 h4 =>
     ⟨hb.pkt s L prio c now f idx b e trivial h.1 h1 h2 h3 h4, ha.pkt s L prio c now f idx b e h.1 h.2 h1 h2 h3 h4⟩
   done := fun s L prio c now f e _ h h1 h2 h3 h4 =>
     ⟨hb.done s L prio c now f e trivial h.1 h1 h2 h3 h4, ha.done s L prio c now f e h.1 h.2 h1 h2 h3 h4⟩
-  fdtGetNext := fun s L now _ h h1 => ⟨hb.fdtGetNext s L now trivial h.1 h1, ha.fdtGetNext s L now h.1 h.2 h1⟩
   fdtPkt := fun s L c f now idx b e _ h h1 h2 h3 h4 =>
     ⟨hb.fdtPkt s L c f now idx b e trivial h.1 h1 h2 h3 h4, ha.fdtPkt s L c f now idx b e h.1 h.2 h1 h2 h3 h4⟩
   fdtDone := fun s L c f now e _ h h1 h2 h3 h4 =>
@@ -81,8 +98,128 @@ theorem ClosedOps.and {B A : State → Held → Prop} (hb : ClosedOps0 B) (ha : 
   add := fun s L a _ h => ⟨hb.add s L a trivial h.1, ha.add s L a h.1 h.2⟩
   remove := fun s L t _ h => ⟨hb.remove s L t trivial h.1, ha.remove s L t h.1 h.2⟩
   trigger := fun s L t ts _ h => ⟨hb.trigger s L t ts trivial h.1, ha.trigger s L t ts h.1 h.2⟩
-  publish := fun s L now _ h => ⟨hb.publish s L now trivial h.1, ha.publish s L now h.1 h.2⟩
+  emitPublish := fun s L now _ h => ⟨hb.emitPublish s L now trivial h.1, ha.emitPublish s L now h.1 h.2⟩
   complete := fun s L _ h => ⟨hb.complete s L trivial h.1, ha.complete s L h.1 h.2⟩
+
+/-! ### field-preservation facts of the primitives -/
+
+@[simp] theorem emit_sessions (s : State) (e : Ev) : (emit s e).sessions = s.sessions := rfl
+@[simp] theorem emit_fdtSess (s : State) (e : Ev) : (emit s e).fdtSess = s.fdtSess := rfl
+@[simp] theorem publish_sessions (s : State) (now : Nat) : (publish s now).sessions = s.sessions := rfl
+@[simp] theorem publish_fdtSess (s : State) (now : Nat) : (publish s now).fdtSess = s.fdtSess := rfl
+
+theorem fdtMaybePublish_fdtSess (s : State) (now : Nat) : (fdtMaybePublish s now).fdtSess = s.fdtSess := by
+  unfold fdtMaybePublish; split <;> rfl
+
+theorem fdtPop_fdtSess (s : State) : (fdtPop s).fdtSess = s.fdtSess := by
+  unfold fdtPop; split <;> rfl
+
+theorem fdtGetNext_inv {Inv : State → Held → Prop} (hc : Closed0 Inv) (s : State) (L : Held) (now : Nat)
+    (h : Inv s L) (hs : s.fdtSess = none) : Inv (fdtGetNext s now) L := by
+  unfold fdtGetNext getNextFdt
+  split
+  · rename_i s' k heq
+    split at heq
+    · simp at heq
+    · -- not busy
+      have h1 : Inv (fdtMaybePublish s now) L := by
+        unfold fdtMaybePublish; split
+        · exact hc.publish s L now trivial h
+        · exact h
+      have hs1 : (fdtMaybePublish s now).fdtSess = none := by rw [fdtMaybePublish_fdtSess, hs]
+      have h2 : Inv (fdtPop (fdtMaybePublish s now)) L := by
+        unfold fdtPop; split
+        · rename_i k rest hq
+          exact hc.fdtPop _ L k rest trivial h1 hs1 hq
+        · exact h1
+      have hs2 : (fdtPop (fdtMaybePublish s now)).fdtSess = none := by rw [fdtPop_fdtSess, hs1]
+      generalize fdtPop (fdtMaybePublish s now) = s2 at h2 hs2 heq
+      unfold fdtTryStart at heq
+      split at heq
+      · simp at heq
+      · rename_i k' hk'
+        split at heq
+        · simp at heq
+        · rename_i f hf
+          split at heq
+          · rename_i hst
+            simp only [Prod.mk.injEq, Option.some.injEq] at heq
+            obtain ⟨e1, e2⟩ := heq
+            subst e1 e2
+            exact hc.fdtStart s2 L k' f now trivial h2 hs2 hk' hf hst
+          · simp at heq
+  · rename_i s' heq
+    split at heq
+    · simp at heq; rw [← heq]; exact h
+    · have h1 : Inv (fdtMaybePublish s now) L := by
+        unfold fdtMaybePublish; split
+        · exact hc.publish s L now trivial h
+        · exact h
+      have hs1 : (fdtMaybePublish s now).fdtSess = none := by rw [fdtMaybePublish_fdtSess, hs]
+      have h2 : Inv (fdtPop (fdtMaybePublish s now)) L := by
+        unfold fdtPop; split
+        · rename_i k rest hq
+          exact hc.fdtPop _ L k rest trivial h1 hs1 hq
+        · exact h1
+      generalize fdtPop (fdtMaybePublish s now) = s2 at h2 heq
+      unfold fdtTryStart at heq
+      split at heq
+      · simp at heq; rw [← heq]; exact h2
+      · split at heq
+        · simp at heq; rw [← heq]; exact h2
+        · split at heq
+          · simp at heq
+          · simp at heq; rw [← heq]; exact h2
+
+theorem getF_map (l : List FileDesc) (g : FileDesc → FileDesc) (hk : ∀ f, (g f).key = f.key) (k : Nat) :
+    getF (l.map g) k = (getF l k).map g := by
+  induction l with
+  | nil => rfl
+  | cons a r ih =>
+    simp only [getF, List.map_cons, List.find?_cons, hk] at *
+    split <;> simp_all
+
+theorem getF_cons (a : FileDesc) (r : List FileDesc) (k : Nat) :
+    getF (a :: r) k = if a.key = k then some a else getF r k := by
+  simp only [getF, List.find?_cons]
+  by_cases h : a.key = k
+  · simp [h]
+  · have : (a.key == k) = false := by simpa using h
+    simp [this, h]
+
+theorem updF_cons (a : FileDesc) (r : List FileDesc) (k : Nat) (g : FileDesc → FileDesc) :
+    updF (a :: r) k g = (if a.key = k then g a else a) :: updF r k g := by
+  simp [updF]
+
+theorem getF_updF (l : List FileDesc) (k k' : Nat) (g : FileDesc → FileDesc) (hk : ∀ f, (g f).key = f.key) :
+    getF (updF l k g) k' = if k' = k then (getF l k').map g else getF l k' := by
+  induction l with
+  | nil => simp [getF, updF]
+  | cons a r ih =>
+    rw [updF_cons, getF_cons, getF_cons, ih]
+    by_cases h1 : a.key = k <;> by_cases h2 : k' = k <;> by_cases h3 : a.key = k' <;>
+      simp_all [hk] <;> omega
+
+theorem getF_key {l : List FileDesc} {k : Nat} {f : FileDesc} (h : getF l k = some f) : f.key = k := by
+  have := List.find?_some h
+  simpa using this
+
+theorem getF_mem {l : List FileDesc} {k : Nat} {f : FileDesc} (h : getF l k = some f) : f ∈ l :=
+  List.mem_of_find?_eq_some h
+
+theorem getNextFile_inv {Inv : State → Held → Prop} (hc : Closed0 Inv) (s : State) (L : Held)
+    (prio now : Nat) (ticks : List (Nat × Nat)) (s' : State) (t : Nat)
+    (h : Inv s L) (hg : getNextFile s prio now ticks = (s', some t)) :
+    Inv s' ((prio, startCur s' t) :: L) := by
+  unfold getNextFile at hg
+  split at hg
+  · simp at hg
+  · rename_i t' hf
+    simp only [Prod.mk.injEq, Option.some.injEq] at hg
+    obtain ⟨e1, e2⟩ := hg
+    subst e2
+    rw [← e1]
+    exact hc.fileStart s L prio now (tkGet ticks t') t' trivial h hf
 
 /-! ### the loops of `Sender::read` preserve a closed invariant -/
 
@@ -124,7 +261,7 @@ theorem runFdt_inv (hc : Closed0 Inv) : ∀ fuel s now L, Inv s L → Inv (runFd
               exact hc.fdtPkt s1 L c f now idx b e trivial h1 hc1 hf (by simpa using hg) he
     cases hs : s.fdtSess with
     | some c => simp only []; exact key s h
-    | none => simp only []; exact key _ (hc.fdtGetNext s L now trivial h hs)
+    | none => simp only []; exact key _ (fdtGetNext_inv hc s L now h hs)
 
 theorem runFile_inv (hc : Closed0 Inv) : ∀ fuel s prio cur now ticks O,
     Inv s (optHeld prio cur ++ O) →
@@ -182,12 +319,12 @@ theorem runFile_inv (hc : Closed0 Inv) : ∀ fuel s prio cur now ticks O,
           have : s' = s := by
             unfold getNextFile at hg
             split at hg
-            · simp at hg; exact hg.1.symm
+            · simp at hg; exact hg.symm
             · simp at hg
           subst this
           exact key s' none h
         | some t =>
-          have := hc.getNextFile s O prio now ticks s' t trivial (by simpa [optHeld] using h) hg
+          have := getNextFile_inv hc s O prio now ticks s' t (by simpa [optHeld] using h) hg
           exact key s' (some (startCur s' t)) (by simpa [optHeld] using this)
 
 theorem heldSlots_get_perm (prio : Nat) : ∀ (l : List (Option Cur)) (i : Nat) (cur : Option Cur),
@@ -209,12 +346,342 @@ theorem heldSlots_get_perm (prio : Nat) : ∀ (l : List (Option Cur)) (i : Nat) 
       simp only [← List.append_assoc]
       exact List.Perm.append_right _ List.perm_append_comm
 
-theorem heldSlots_set_perm (prio : Nat) : ∀ (l : List (Option Cur)) (i : Nat) (cur : Option Cur),
-    i < l.length → (heldSlots prio (l.set i cur)).Perm (optHeld prio cur ++ heldSlots prio (l.eraseIdx i)) := by
-  intro l i cur hi
-  apply heldSlots_get_perm
-  simp [hi]
-  · skip
-  all_goals sorry
+theorem heldSlots_set_perm (prio : Nat) (l : List (Option Cur)) (i : Nat) (cur : Option Cur)
+    (hi : i < l.length) :
+    (heldSlots prio (l.set i cur)).Perm (optHeld prio cur ++ heldSlots prio (l.eraseIdx i)) := by
+  have h := heldSlots_get_perm prio (l.set i cur) i cur (by simp [hi])
+  have e : (l.set i cur).eraseIdx i = l.eraseIdx i := by
+    exact List.eraseIdx_set_eq
+  rw [e] at h
+  exact h
+
+theorem readQueue_inv (hc : Closed0 Inv) : ∀ k s q now ticks O,
+    Inv s (heldQ q ++ O) →
+    Inv (readQueue k s q now ticks).1 (heldQ (readQueue k s q now ticks).2.1 ++ O) := by
+  intro k
+  induction k with
+  | zero => intro s q now ticks O h; simpa [readQueue] using h
+  | succ n ih =>
+    intro s q now ticks O h
+    unfold readQueue
+    split
+    · exact h
+    · rename_i cur hcur
+      have hi : q.index < q.slots.length := by
+        rcases Nat.lt_or_ge q.index q.slots.length with h | h
+        · exact h
+        · simp [List.getElem?_eq_none h] at hcur
+      have p1 := heldSlots_get_perm q.prio q.slots q.index cur hcur
+      have h1 : Inv s (optHeld q.prio cur ++ (heldSlots q.prio (q.slots.eraseIdx q.index) ++ O)) := by
+        refine hc.perm _ _ _ ?_ h
+        simp only [heldQ, ← List.append_assoc]
+        exact List.Perm.append_right _ p1
+      have h2 := runFile_inv hc runFuel s q.prio cur now ticks _ h1
+      generalize runFile runFuel s q.prio cur now ticks = r at h2
+      obtain ⟨s', cur', out⟩ := r
+      simp only [] at h2 ⊢
+      have p2 := heldSlots_set_perm q.prio q.slots q.index cur' hi
+      have h3 : ∀ idx, Inv s' (heldQ { q with slots := q.slots.set q.index cur', index := idx } ++ O) := by
+        intro idx
+        refine hc.perm _ _ _ ?_ h2
+        simp only [heldQ, ← List.append_assoc]
+        exact List.Perm.append_right _ p2.symm
+      cases out with
+      | none => exact ih _ _ _ _ _ (h3 _)
+      | hang => exact h3 _
+      | pkt a b c d => exact h3 _
+      | fdt a b c => exact h3 _
+
+theorem readQueues_inv (hc : Closed0 Inv) : ∀ qs s now ticks O,
+    Inv s (held qs ++ O) →
+    Inv (readQueues s qs now ticks).1 (held (readQueues s qs now ticks).2.1 ++ O) := by
+  intro qs
+  induction qs with
+  | nil => intro s now ticks O h; simpa [readQueues] using h
+  | cons q rest ih =>
+    intro s now ticks O h
+    unfold readQueues
+    have h1 : Inv s (heldQ q ++ (held rest ++ O)) := by
+      simpa [held, List.append_assoc] using h
+    have h2 := readQueue_inv hc q.slots.length s q now ticks _ h1
+    generalize readQueue q.slots.length s q now ticks = r at h2
+    obtain ⟨s', q', out⟩ := r
+    simp only [] at h2 ⊢
+    have back : ∀ s2 rest2, Inv s2 (held rest2 ++ (heldQ q' ++ O)) → Inv s2 (held (q' :: rest2) ++ O) := by
+      intro s2 rest2 h
+      refine hc.perm _ _ _ ?_ h
+      simp only [held, List.flatMap_cons, ← List.append_assoc]
+      exact List.Perm.append_right _ List.perm_append_comm
+    have fwd : Inv s' (held rest ++ (heldQ q' ++ O)) := by
+      refine hc.perm _ _ _ ?_ h2
+      simp only [← List.append_assoc]
+      exact List.Perm.append_right _ List.perm_append_comm
+    cases out with
+    | none =>
+      simp only []
+      have h3 := ih s' now ticks _ fwd
+      generalize readQueues s' rest now ticks = r2 at h3
+      obtain ⟨s2, rest2, out2⟩ := r2
+      exact back _ _ h3
+    | hang => exact back _ _ fwd
+    | pkt a b c d => exact back _ _ fwd
+    | fdt a b c => exact back _ _ fwd
+
+theorem fdtMaybePublish_sessions (s : State) (now : Nat) : (fdtMaybePublish s now).sessions = s.sessions := by
+  unfold fdtMaybePublish; split <;> rfl
+
+theorem fdtPop_sessions (s : State) : (fdtPop s).sessions = s.sessions := by
+  unfold fdtPop; split <;> rfl
+
+theorem fdtTryStart_sessions (s : State) (now : Nat) : (fdtTryStart s now).1.sessions = s.sessions := by
+  unfold fdtTryStart
+  split
+  · rfl
+  · split
+    · rfl
+    · split <;> rfl
+
+theorem getNextFdt_sessions (s : State) (now : Nat) : (getNextFdt s now).1.sessions = s.sessions := by
+  unfold getNextFdt
+  split
+  · rfl
+  · rw [fdtTryStart_sessions, fdtPop_sessions, fdtMaybePublish_sessions]
+
+theorem fdtGetNext_sessions (s : State) (now : Nat) : (fdtGetNext s now).sessions = s.sessions := by
+  have := getNextFdt_sessions s now
+  unfold fdtGetNext
+  split <;> simp_all
+
+theorem transferDoneFdt_sessions (s : State) (k now : Nat) : (transferDoneFdt s k now).sessions = s.sessions := by
+  unfold transferDoneFdt
+  simp only []
+  split
+  · split <;> rfl
+  · rfl
+
+theorem fdtRelease_sessions (s : State) (k now : Nat) : (fdtRelease s k now).sessions = s.sessions := by
+  unfold fdtRelease
+  exact transferDoneFdt_sessions s k now
+
+theorem runFdt_sessions : ∀ fuel s now, (runFdt fuel s now).1.sessions = s.sessions := by
+  intro fuel
+  induction fuel with
+  | zero => intro s now; rfl
+  | succ n ih =>
+    intro s now
+    unfold runFdt
+    have key : ∀ s1 : State, s1.sessions = s.sessions →
+        (match s1.fdtSess with
+          | none => (s1, Out.none)
+          | some c =>
+            match getF s1.fdts c.key with
+            | none => (s1, Out.none)
+            | some f =>
+              if gateBlocked f now then (s1, Out.none) else
+              match encRead f.nSym c.enc false with
+              | (none, _) => runFdt n (fdtRelease s1 c.key now) now
+              | (some (idx, _), e) => (fdtStep s1 c e f.fdtId now idx, Out.fdt c.key f.fdtId idx)).1.sessions
+          = s.sessions := by
+      intro s1 h1
+      split
+      · exact h1
+      · split
+        · exact h1
+        · split
+          · exact h1
+          · split
+            · rw [ih, fdtRelease_sessions, h1]
+            · exact h1
+    cases hs : s.fdtSess with
+    | some c => simp only []; exact key s rfl
+    | none => simp only []; exact key _ (fdtGetNext_sessions s now)
+
+theorem fdtTryStart_none (s : State) (now : Nat) (h : (fdtTryStart s now).2 = none) :
+    (fdtTryStart s now).1 = s := by
+  unfold fdtTryStart at h ⊢
+  split
+  · rfl
+  · rename_i k hk
+    rw [hk] at h
+    simp only [] at h
+    split
+    · rfl
+    · rename_i f hf
+      rw [hf] at h
+      simp only [] at h
+      split
+      · rename_i hst
+        rw [if_pos hst] at h
+        simp at h
+      · rfl
+
+theorem runFdt_none : ∀ fuel s now s', runFdt fuel s now = (s', Out.none) → FdtQuiet s' now := by
+  intro fuel
+  induction fuel with
+  | zero => intro s now s' h; simp [runFdt] at h
+  | succ n ih =>
+    intro s now s' h
+    unfold runFdt at h
+    have key : ∀ s1 : State, (s1.fdtSess = none → fdtBusy s1 = true ∨ (fdtTryStart s1 now).2 = none) →
+        (match s1.fdtSess with
+          | none => (s1, Out.none)
+          | some c =>
+            match getF s1.fdts c.key with
+            | none => (s1, Out.none)
+            | some f =>
+              if gateBlocked f now then (s1, Out.none) else
+              match encRead f.nSym c.enc false with
+              | (none, _) => runFdt n (fdtRelease s1 c.key now) now
+              | (some (idx, _), e) => (fdtStep s1 c e f.fdtId now idx, Out.fdt c.key f.fdtId idx)) = (s', Out.none) →
+        FdtQuiet s' now := by
+      intro s1 hq h1
+      split at h1
+      · rename_i hs
+        simp only [Prod.mk.injEq, and_true] at h1; subst h1
+        exact Or.inl ⟨hs, hq hs⟩
+      · rename_i c hs
+        split at h1
+        · rename_i hf
+          simp only [Prod.mk.injEq, and_true] at h1; subst h1
+          exact Or.inr ⟨c, hs, Or.inl hf⟩
+        · rename_i f hf
+          split at h1
+          · rename_i hg
+            simp only [Prod.mk.injEq, and_true] at h1; subst h1
+            exact Or.inr ⟨c, hs, Or.inr ⟨f, hf, hg⟩⟩
+          · split at h1
+            · exact ih _ _ _ h1
+            · simp at h1
+    cases hs : s.fdtSess with
+    | some c =>
+      simp only [hs] at h
+      exact key s (by simp [hs]) (by simp only [hs]; exact h)
+    | none =>
+      simp only [hs] at h
+      refine key (fdtGetNext s now) ?_ h
+      intro hn
+      unfold fdtGetNext getNextFdt at hn ⊢
+      split
+      · rename_i s2 k heq
+        rw [heq] at hn; simp at hn
+      · rename_i s2 heq
+        split at heq
+        · rename_i hb
+          simp only [Prod.mk.injEq, and_true] at heq; subst heq
+          exact Or.inl hb
+        · right
+          have : (fdtTryStart (fdtPop (fdtMaybePublish s now)) now).1 = s2 := by rw [heq]
+          have e2 : (fdtTryStart (fdtPop (fdtMaybePublish s now)) now).2 = none := by rw [heq]
+          generalize fdtPop (fdtMaybePublish s now) = s3 at this e2
+          have : s3 = s2 := by rw [← this]; exact (fdtTryStart_none s3 now e2).symm
+          subst this
+          exact e2
+
+theorem readTail_inv (hc : Closed0 Inv) (s : State) (now : Nat)
+    (h : Inv s (heldOf s)) : Inv (readTail s now).1 (heldOf (readTail s now).1) := by
+  unfold readTail
+  have h4 := runFdt_inv hc runFuel s now _ h
+  have e4 := runFdt_sessions runFuel s now
+  generalize runFdt runFuel s now = r4 at h4 e4
+  obtain ⟨s4, o4⟩ := r4
+  simp only [] at e4 h4
+  have fin4 : Inv s4 (heldOf s4) := by simpa [heldOf, e4] using h4
+  cases o4 with
+  | hang => exact fin4
+  | pkt a b c d => exact fin4
+  | fdt a b c => exact fin4
+  | none => exact hc.emitIdle s4 _ now trivial fin4
+
+theorem readMid_inv (hc : Closed0 Inv) (s : State) (now : Nat) (ticks : List (Nat × Nat))
+    (h : Inv s (heldOf s)) : Inv (readMid s now ticks).1 (heldOf (readMid s now ticks).1) := by
+  unfold readMid
+  have h2 := readQueues_inv hc s.sessions s now ticks [] (by simpa [heldOf] using h)
+  generalize readQueues s s.sessions now ticks = r2 at h2
+  obtain ⟨s2, qs, o2⟩ := r2
+  simp only [List.append_nil] at h2 ⊢
+  have h3 : Inv { s2 with sessions := qs, quiet := false } (heldOf { s2 with sessions := qs, quiet := false }) :=
+    hc.leaveFiles s2 _ qs h2
+  cases o2 with
+  | hang => exact h3
+  | pkt a b c d => exact h3
+  | fdt a b c => exact h3
+  | none => exact readTail_inv hc _ now h3
+
+theorem read_inv (hc : Closed0 Inv) (s : State) (now : Nat) (ticks : List (Nat × Nat))
+    (h : Inv s (heldOf s)) : Inv (read s now ticks).1 (heldOf (read s now ticks).1) := by
+  unfold read
+  have h0 : Inv (emit s (.opRead now)) (heldOf s) := hc.emitRead s _ now trivial h
+  have h1 := runFdt_inv hc runFuel _ now _ h0
+  have e1 := runFdt_sessions runFuel (emit s (.opRead now)) now
+  generalize hr1 : runFdt runFuel (emit s (.opRead now)) now = r1 at h1 e1
+  obtain ⟨s1, o1⟩ := r1
+  simp only [emit_sessions] at e1 h1
+  have fin : Inv s1 (heldOf s1) := by simpa [heldOf, e1] using h1
+  cases o1 with
+  | hang => exact fin
+  | pkt a b c d => exact fin
+  | fdt a b c => exact fin
+  | none =>
+    have q := runFdt_none runFuel (emit s (.opRead now)) now s1 hr1
+    exact readMid_inv hc _ now ticks (hc.enterFiles s1 _ now trivial fin q)
+
+/-! ### operation histories -/
+
+theorem step_inv (hc : Closed0 Inv) (ho : ClosedOps0 Inv) (s : State) (op : Op)
+    (h : Inv s (heldOf s)) : Inv (step s op) (heldOf (step s op)) := by
+  cases op with
+  | add a =>
+    have : heldOf (addObject s a).1 = heldOf s := by
+      unfold addObject heldOf; simp only []; split
+      · rfl
+      · split <;> rfl
+    show Inv (addObject s a).1 (heldOf (addObject s a).1)
+    rw [this]; exact ho.add s _ a trivial h
+  | publish now =>
+    show Inv (publishOp s now) (heldOf (publishOp s now))
+    have : heldOf (publishOp s now) = heldOf s := rfl
+    rw [this]
+    exact hc.publish _ _ now trivial (ho.emitPublish s _ now trivial h)
+  | remove t =>
+    have : heldOf (removeObject s t).1 = heldOf s := by
+      unfold removeObject heldOf; split <;> rfl
+    show Inv (removeObject s t).1 (heldOf (removeObject s t).1)
+    rw [this]; exact ho.remove s _ t trivial h
+  | trigger t ts =>
+    have : heldOf (triggerTransferAt s t ts).1 = heldOf s := by
+      unfold triggerTransferAt heldOf; split
+      · rfl
+      · split <;> rfl
+    show Inv (triggerTransferAt s t ts).1 (heldOf (triggerTransferAt s t ts).1)
+    rw [this]; exact ho.trigger s _ t ts trivial h
+  | read now ticks => exact read_inv hc s now ticks h
+  | setComplete => exact ho.complete s _ trivial h
+
+theorem heldOf_init (cfg : Cfg) (tbl : List Nat) : heldOf (init cfg tbl) = [] := by
+  simp only [heldOf, init, held]
+  induction cfg.queues with
+  | nil => rfl
+  | cons q r ih =>
+    simp only [List.map_cons, List.flatMap_cons, ih, List.append_nil]
+    simp only [heldQ, heldSlots]
+    generalize (if q.2 = 0 then 1 else q.2) = n
+    induction n with
+    | zero => rfl
+    | succ m ihm => simp [List.replicate_succ, optHeld, ihm]
+
+theorem run_inv (hc : Closed0 Inv) (ho : ClosedOps0 Inv) : ∀ (ops : List Op) (s : State),
+    Inv s (heldOf s) → Inv (run s ops) (heldOf (run s ops)) := by
+  intro ops
+  induction ops with
+  | nil => intro s h; exact h
+  | cons op rest ih =>
+    intro s h
+    exact ih _ (step_inv hc ho s op h)
+
+/-- a closed invariant that holds initially holds after every operation history -/
+theorem inv_run (hc : Closed0 Inv) (ho : ClosedOps0 Inv) (cfg : Cfg) (tbl : List Nat)
+    (h0 : Inv (init cfg tbl) []) (ops : List Op) :
+    Inv (run (init cfg tbl) ops) (heldOf (run (init cfg tbl) ops)) :=
+  run_inv hc ho ops _ (by rw [heldOf_init]; exact h0)
 
 end Flute.Sched
